@@ -383,6 +383,7 @@ func init() {
 			// "distinct accesses are never discarded as duplicates"
 			identLaws(env, g)
 			g.waves(env, "C16", true, nil, nil, true)
+			g.Static = append(g.Static, boundedC16Profiles(env))
 			// every record of the list goes through AddRule exactly once (SSA shape obligation)
 			if fn := env.Prog.Func("pkg/logs", "(AppArmorLogs).ParseToProfiles"); fn != nil {
 				g.addFunc(env, fn)
@@ -392,7 +393,7 @@ func init() {
 			}
 			g.Unverified = []string{
 				"path generalisation (regResolveLogs, 60 regexes) still matching the recorded name under the shipped tunables",
-				"ParseToProfiles: under which profile name a record's rule is filed (only that every record reaches AddRule exactly once is covered)",
+				"ParseToProfiles: under which profile name a record's rule is filed: only a bounded stand-in (labelled bounded); that every record reaches AddRule exactly once is a shape obligation",
 			}
 			return g
 		},
